@@ -284,7 +284,7 @@ def run_case(case):
             origin = cfg.get('origin', 'nodata')
             count('origin:' + origin)
             if origin == 'xlsx':
-                driver.build_xlsx(st.spec, stored)
+                driver.build_xlsx(st.spec, stored, strict=False)
             else:
                 driver.build_nodata(st.spec)
                 if origin in history.SERIAL:
@@ -331,6 +331,11 @@ def run_case(case):
                     count('probe:blank-cell-outside-used-area')
                 continue
             except Exception as exc:   # noqa
+                if op['path'] in ('col', 'row') and expected.get(op['a'], ('err', 0))[1] is None:
+                    # a blank cell beyond the used area: nothing to clip the range to
+                    count('probe:blank-cell-outside-used-area')
+                    events.append((i, 'exc-blank', type(exc).__name__))
+                    continue
                 if any(expected.get(c, ('err',))[0] == 'ok' for c in (op.get('addrs') or [op['a']])):
                     violate('exception', i, op, 'a value', f'{type(exc).__name__}: {str(exc)[-200:]}',
                             exc=type(exc).__name__)
